@@ -35,6 +35,16 @@ static int should_skip(int type, unsigned int flags)
 	return 0;
 }
 
+static size_t nesting_level(const sqfs_tree_node_t *n)
+{
+	size_t level = 0;
+
+	for (n = n->parent; n != NULL; n = n->parent)
+		++level;
+
+	return level;
+}
+
 static bool would_be_own_parent(sqfs_tree_node_t *parent, sqfs_tree_node_t *n)
 {
 	sqfs_u32 inum = n->inode->base.inode_number;
@@ -98,6 +108,11 @@ static int fill_dir(sqfs_dir_reader_t *dr, sqfs_tree_node_t *root,
 	int err;
 
 	tail = &root->children;
+
+	/* this function, resolve_ids and sqfs_dir_tree_destroy
+	   call themselves once per level */
+	if (nesting_level(root) > SQFS_MAX_DIR_NESTING)
+		return SQFS_ERROR_OVERFLOW;
 
 	for (;;) {
 		err = sqfs_dir_reader_read(dr, state, &ent);
